@@ -128,21 +128,25 @@ inductive Ex
   | leaf (l : Leaf)
   | op (o : JoinOp) (a b : Ex)
   | raw (src : String) (v : V)      -- an operand that is not a relation
+  | wh (e : Ex)                     -- `(e where true)`: Relation.Where keeps the (permuted) heading
   deriving Inhabited
 
 def Ex.src : Ex → String
   | .leaf l => l.src
   | .op o a b => "(" ++ a.src ++ " " ++ o.sym ++ " " ++ b.src ++ ")"
   | .raw s _ => s
+  | .wh e => "(" ++ e.src ++ " where true)"
 
 def Ex.spec : Ex → V
   | .leaf l => l.val
   | .op o a b => Spec.join o a.spec b.spec
   | .raw _ v => v
+  | .wh e => e.spec
 
 def Ex.model : Ex → Res
   | .leaf l => .ok (ofV l.val)
   | .raw _ v => .ok (ofV v)
+  | .wh e => e.model
   | .op o a b =>
     match a.model with
     | .ok x =>
@@ -154,6 +158,7 @@ def Ex.model : Ex → Res
 def Ex.illTyped : Ex → Bool
   | .leaf _ => false
   | .raw _ _ => true
+  | .wh e => e.illTyped
   | .op _ a b => a.illTyped || b.illTyped
 
 /-! ## known-finding classes (decidable predicates on values) -/
@@ -243,10 +248,28 @@ def valueClass (v : V) : String :=
 
 def orCls (a b : String) : String := if a != "" then a else b
 
+/-- the number of `(@, @byte)` members of a set -/
+def byteMembers : V → Nat
+  | .set xs => (xs.filter fun x => namesOf x = ["@", "@byte"]).length
+  | _ => 0
+
+def isRelation : Res → Bool
+  | .ok (.relation _) => true
+  | _ => false
+
+/-- a byte array assembled by the generic path: `GenericJoin` unions the per-key results one member at a
+time, and byte arrays cannot pass through a set with a hole (or grow at a distance) -/
+def genericBytes (ra rb : Res) (v : V) : Bool :=
+  !(isRelation ra && isRelation rb) && byteMembers v ≥ 2
+
 def Ex.cls : Ex → String
   | .leaf l => valueClass l.val
   | .raw _ _ => ""
-  | .op o a b => orCls a.cls (orCls b.cls (valueClass (Spec.join o a.spec b.spec)))
+  | .wh e => e.cls
+  | .op o a b =>
+    let v := Spec.join o a.spec b.spec
+    orCls a.cls (orCls b.cls (orCls (valueClass v)
+      (if genericBytes a.model b.model v then "KF-bytes-holes" else "")))
 
 def headingOf (v : V) : Names :=
   match Spec.rowsOf v with
@@ -345,7 +368,8 @@ def genOperand (pool : Names) (vmax maxRows : Nat) (nested : Bool) : Gen Ex := d
     let l2 : Leaf := ⟨cols, rows, ← genForm⟩
     let o ← pick [JoinOp.join, .join, .join, .compose, .lmatch, .rmatch, .common, .rres, .lres]
     let sw ← chance 1 2
-    pure (if sw then .op o (.leaf l2) (.leaf l1) else .op o (.leaf l1) (.leaf l2))
+    let e : Ex := if sw then .op o (.leaf l2) (.leaf l1) else .op o (.leaf l1) (.leaf l2)
+    pure (if ← chance 1 4 then .wh e else e)
   else
     let n ← pick [0, 1, 1, 2, 2, 2, 3, 3, 4]
     pure (.leaf (← genLeaf (pool.take n) vmax maxRows))
@@ -363,6 +387,7 @@ def repName : Ex → String
     | none => "")
   | .op _ _ _ => "join"
   | .raw _ _ => "raw"
+  | .wh _ => "join-where"
 
 def partitionOf (a b : V) : String :=
   let ha := headingOf a
